@@ -22,7 +22,7 @@ RULE = ("histories w(M0,F0) a(M1,F1)..a(Mk,Fk), k<=3: base written by py7zr, by 
         "any chain per session, password constant, header mode any. After EVERY session the archive is read by py7zr and by the reference reader: member "
         "sequence == M0|..|Mj (names, bytes, kinds); each earlier member's reference record (name, kind, size, crc, mtime, attributes, bytes) before the session == "
         "after it; no structural finding. Bases py7zr cannot read at all are C06's business and skipped. Cell = (base kind + features, session chains, member kinds added).")
-ASSUMPTIONS = ["ctime/atime, which py7zr never writes, are reported as dropped_optional_times and are not violations"]
+ASSUMPTIONS = ["a member CRC may move between folder level and file level (the reference reader reports it either way); losing it is a change"]
 
 
 def _session(rng, s, pw):
@@ -61,6 +61,11 @@ def cases(rng, tier):
             pw = c["password"]
             base = {"kind": "ref", "case": c}
         out.append({"base": base, "password": pw, "sessions": [_session(rng, s + 1, pw) for s in range(k)]})
+    # session-level shapes: what an append session does to the archive it finds (from a bug hunt on the unmodified tree)
+    shapes = ["stream-not-rewound", "unknown-file-property", "damaged-header", "not-an-archive", "empty-file", "wrong-password", "test-inside-append", "testzip-inside-append",
+              "extract-inside-append", "refused-chain"]
+    for i in range(len(shapes) * (1 if tier == "quick" else 20)):
+        out.append({"kind": "special", "shape": shapes[i % len(shapes)], "seed": rng.getrandbits(32), "password": None, "base": None})
     return out
 
 
@@ -129,12 +134,11 @@ def _check(path, pw, model, prev, viol, obs, tag):
     if prev is not None:
         for i, (a, b) in enumerate(zip(prev, recs)):
             obs["earlier_members_rechecked"] += 1
-            for field in ("name", "kind", "size", "crc", "mtime", "attributes", "data_crc"):
+            for field in ("name", "kind", "size", "crc", "mtime", "ctime", "atime", "attributes", "data_crc"):
                 if a[field] != b[field]:
-                    if field == "crc" and (a[field] is None or b[field] is None):
-                        # a CRC moved between folder level and file level, or was dropped: integrity
-                        # information, not member metadata (the statement lists name, bytes, metadata)
-                        obs["diag_crc_definedness_changed"] = obs.get("diag_crc_definedness_changed", 0) + 1
+                    if field == "crc" and a[field] is None:
+                        # a CRC that was not there before: integrity information gained, nothing of the member changed
+                        obs["diag_crc_gained"] = obs.get("diag_crc_gained", 0) + 1
                         continue
                     if field == "name" and (a[field] or "").replace("\\", "/") == (b[field] or "").replace("\\", "/"):
                         continue  # path separators are equivalent
@@ -156,9 +160,142 @@ def _check(path, pw, model, prev, viol, obs, tag):
     return recs
 
 
+def _run_special(case):
+    """An append session on an archive it cannot or must not take over: the old members survive, or the call says why not
+    and leaves the bytes alone."""
+    import hashlib
+
+    import py7zr
+
+    r = random.Random(case["seed"])
+    shape = case["shape"]
+    viol = []
+    obs = {k: 0 for k in REQUIRED_OBS}
+    obs["histories"] = 1
+    obs["append_sessions"] = 1
+    old = [("old-%d.txt" % i, G.materialise(G.content_recipe(r, max_len=3000))) for i in range(r.randint(1, 3))]
+    new = ("appended.bin", b"appended " * 30)
+    pw = "right-password" if shape == "wrong-password" else None
+
+    def base_bytes():
+        b = io.BytesIO()
+        with py7zr.SevenZipFile(b, "w", password=pw, header_encryption=bool(pw)) as z:
+            for n, dta in old:
+                z.writestr(dta, n)
+        return b.getvalue()
+
+    def read_back(data, password=None):
+        return pz.read_mem(data, password)
+
+    want_all = [n for n, _ in old] + [new[0]]
+    tag = "append session, shape %s" % shape
+    with pz.scratch("vf-c08s-") as d:
+        if shape == "stream-not-rewound":
+            b = io.BytesIO()
+            with py7zr.SevenZipFile(b, "w") as z:
+                for n, dta in old:
+                    z.writestr(dta, n)
+            # the caller does not rewind: the stream stands wherever the first session left it
+            with py7zr.SevenZipFile(b, "a") as z:
+                z.writestr(new[1], new[0])
+            gn, got = read_back(b.getvalue())
+            if gn != want_all or any(got.get(n) != dta for n, dta in old):
+                viol.append({"key": "append-drops-history/stream-not-rewound", "what": "%s: archive now lists %r, history says %r" % (tag, gn, want_all)})
+        elif shape in ("unknown-file-property", "damaged-header", "not-an-archive", "wrong-password"):
+            if shape == "unknown-file-property":
+                mem = [{"name": n, "kind": "file", "data": dta, "attributes": 0x20, "mtime": 132000000000000000 + i} for i, (n, dta) in enumerate(old)]
+                # a kComment (0x16) property of one byte at the end of FilesInfo: valid, but not known to this reader
+                data = W.build(mem, {"folders": [{"n": len(mem), "chain": [{"m": "LZMA2"}], "crc": "sub"}], "header": "raw"}, header_bytes_hook=lambda h: h[:-2] + bytes([0x16, 0x01, 0x00]) + h[-2:])
+            elif shape == "damaged-header":
+                data = bytearray(base_bytes())
+                data[-5] ^= 0xFF
+                data = bytes(data)
+            elif shape == "not-an-archive":
+                data = b"just some text, not an archive\n" * 4
+            else:
+                data = base_bytes()
+            path = os.path.join(d, "a.7z")
+            with open(path, "wb") as f:
+                f.write(data)
+            h0 = hashlib.sha256(data).hexdigest()
+            err = None
+            try:
+                with py7zr.SevenZipFile(path, "a", password=("Right-Password" if shape == "wrong-password" else None)) as z:
+                    z.writestr(new[1], new[0])
+            except Exception as e:
+                err = e
+            now = open(path, "rb").read()
+            if err is None:
+                viol.append({"key": "append-takes-over/%s" % shape, "what": "%s: the session ended normally; the file now lists %r" % (tag, _names_or_error(now))})
+            elif hashlib.sha256(now).hexdigest() != h0:
+                viol.append({"key": "append-modifies-despite-error/%s" % shape, "what": "%s: raised %s but the file changed (%d -> %d bytes)" % (tag, pz.exc_sig(err), len(data), len(now))})
+            else:
+                obs["appends_refused_and_file_intact"] = 1
+        elif shape == "empty-file":
+            path = os.path.join(d, "new.7z")
+            open(path, "wb").close()
+            with py7zr.SevenZipFile(path, "a") as z:
+                z.writestr(new[1], new[0])
+            gn, got = read_back(open(path, "rb").read())
+            if gn != [new[0]] or got.get(new[0]) != new[1]:
+                viol.append({"key": "append-to-empty-file", "what": "%s: archive lists %r" % (tag, gn)})
+        elif shape in ("test-inside-append", "testzip-inside-append", "extract-inside-append"):
+            path = os.path.join(d, "a.7z")
+            with open(path, "wb") as f:
+                f.write(base_bytes())
+            src = path if r.random() < 0.5 else io.BytesIO(open(path, "rb").read())
+            try:
+                z = py7zr.SevenZipFile(src, "a")
+                try:
+                    if shape.startswith("test-"):
+                        z.test()
+                    elif shape.startswith("testzip"):
+                        z.testzip()
+                    else:
+                        z.extractall(factory=pz.CollectFactory())
+                except ValueError:
+                    obs["read_calls_refused_in_append"] = 1
+                z.writestr(new[1], new[0])
+                z.close()
+                data = open(path, "rb").read() if isinstance(src, str) else src.getvalue()
+                gn, got = read_back(data)
+                if gn != want_all or any(got.get(n) != dta for n, dta in old) or got.get(new[0]) != new[1]:
+                    viol.append({"key": "append-alters-history/%s" % shape, "what": "%s: archive lists %r, history says %r (or bytes differ)" % (tag, gn, want_all)})
+            except Exception as e:
+                viol.append({"key": "append-breaks-archive/%s/%s" % (shape, type(e).__name__), "what": "%s: %s" % (tag, pz.exc_sig(e))})
+        else:  # refused-chain
+            b = io.BytesIO(base_bytes())
+            err = None
+            try:
+                with py7zr.SevenZipFile(b, "a", filters=[{"id": py7zr.FILTER_DELTA}, {"id": py7zr.FILTER_ZSTD}]) as z:
+                    z.writestr(new[1], new[0])
+            except Exception as e:
+                err = e
+            try:
+                gn, got = read_back(b.getvalue())
+                if gn[: len(old)] != [n for n, _ in old] or any(got.get(n) != dta for n, dta in old):
+                    viol.append({"key": "append-alters-history/refused-chain", "what": "%s (%s): archive lists %r" % (tag, pz.exc_sig(err) if err else "no error", gn)})
+            except Exception as e:
+                viol.append({"key": "append-breaks-archive/refused-chain/%s" % type(e).__name__, "what": "%s: the session raised %s; afterwards the archive cannot be read: %s" % (
+                    tag, pz.exc_sig(err) if err else "nothing", pz.exc_sig(e))})
+    cell = "special|" + shape
+    if viol:
+        return K.result("violated", violations=viol, cell=cell, obs=obs, sample={"shape": shape})
+    return K.result("held", cell=cell, obs=obs, sample={"shape": shape})
+
+
+def _names_or_error(data):
+    try:
+        return pz.read_mem(data)[0]
+    except Exception as e:
+        return "unreadable: " + pz.exc_sig(e)
+
+
 def run_case(case):
     import py7zr
 
+    if case.get("kind") == "special":
+        return _run_special(case)
     viol = []
     obs = {k: 0 for k in REQUIRED_OBS}
     pw = case["password"]
